@@ -39,7 +39,7 @@ func (m c13) Run(ctx *core.Ctx) {
 	n := split(tierN(ctx.Tier, 300_000, 20_000_000), ctx.Shard, ctx.NShards)
 	kinds := histKinds{setters: true, sp: true}
 	for i := int64(0); i < n; i++ {
-		cs := &core.Case{N: r.IntN(8)}
+		cs := &core.Case{N: r.IntN(16)}
 		if i%2 == 0 {
 			cs.Check = "resolve"
 			cs.Base = core.S(gen.ParseableBase(r))
@@ -56,6 +56,12 @@ func (m c13) Run(ctx *core.Ctx) {
 		// history layout: prefix | "--" | phase 1 (on the derived value) | "--" | phase 2 (on the source)
 		for j := r.IntN(3); j > 0 && cs.Check == "clone"; j-- {
 			cs.Ops = append(cs.Ops, genOp(r, kinds))
+		}
+		if cs.Check == "clone" && r.IntN(6) == 0 {
+			// a parameter list just beyond a small/large cut-off exists before the clone is made
+			for j := gen.Pick(r, gen.ThresholdSizes[:5]); j > 0; j-- {
+				cs.Ops = append(cs.Ops, sOp("sp.append", gen.Pick(r, []string{"a", "b", "k"}), fmt.Sprint(j)))
+			}
 		}
 		cs.Ops = append(cs.Ops, sOp("--"))
 		for j := 1 + r.IntN(5); j > 0; j-- {
@@ -224,6 +230,52 @@ func (c13) Exec(ctx *core.Ctx, cs *core.Case) {
 		}
 	}
 
+	// late observation (N&8): the untouched side is not read at all until the phase is over, and is
+	// then compared with a reference built the same way that nobody operated on - a copy that is
+	// only made on first read (lazy clone) would otherwise be triggered, and hidden, by the monitor
+	late := cs.N&8 != 0
+	runLate := func(target, other *url.Url, ops []core.Op, what string, refOther func() *url.Url) bool {
+		for _, op := range ops {
+			if p := ctx.Call(budget+opBytes(op), func() { applyOp(target, op) }); p != nil {
+				ctx.Count("op_panics(C02)")
+				return false
+			}
+			ctx.Count("ops")
+		}
+		ref := refOther()
+		if ref == nil {
+			return false
+		}
+		if a, b := takeFull(ref, names).noErrs(), takeFull(other, names).noErrs(); a != b {
+			ctx.Violate("operations on one value changed the other value, seen when the other value is first read afterwards ("+what+")", a.s.Href, b.s.Href, diffFull(a, b))
+			return false
+		}
+		return true
+	}
+	if late {
+		ctx.Count("late_observation_cases")
+		if derivedFirst {
+			// operate on the derived value; the source is read only afterwards
+			runLate(der, src, append(append([]core.Op{}, ph[1]...), ph[2]...), "operating on the "+map[bool]string{true: "clone", false: "result of the resolution"}[cs.Check == "clone"],
+				func() *url.Url {
+					s2, _, ok := build()
+					if !ok {
+						return nil
+					}
+					return s2
+				})
+		} else {
+			runLate(src, der, append(append([]core.Op{}, ph[2]...), ph[1]...), "operating on the "+map[bool]string{true: "original", false: "base"}[cs.Check == "clone"],
+				func() *url.Url {
+					_, d2, ok := build()
+					if !ok {
+						return nil
+					}
+					return d2
+				})
+		}
+		return
+	}
 	run := func(target, twin, other *url.Url, ops []core.Op, what string) bool {
 		before := takeFull(other, names)
 		for i, op := range ops {
